@@ -1,53 +1,29 @@
 /-
-Statement audit of C13 — added material only (nothing in `Props/C13.lean` is changed).
+Statement audit of C13.
 
-1.  The "up to a 128-bit collision" disjuncts of `fingerprint_discriminates`, `fingerprint_discriminates_all`
+1.  The "up to a 128-bit collision" disjuncts of the OLD `fingerprint_discriminates`, `fingerprint_discriminates_all`
     and `stream_discriminates` are CLOSED propositions about the hasher (`∃ a b, a ≠ b ∧ hash a = hash b`,
     `SomeCollision absorb finish`): they do not mention the two values.  For any hasher with a bounded range
     they are true by the pigeonhole principle (infinitely many byte strings, at most 2^128 sums), so as
-    STATEMENTS these disjunctions carry no information about `v` and `w` — although the proofs do produce the
-    collision from the two streams at hand.  `fingerprint_discriminates_located` /
-    `fingerprint_discriminates_all_located` below state what those proofs establish: the colliding byte
-    strings ARE the two streams of `v` and `w`.  (For the nested sum collision a located version needs the
-    induction of `Lemmas/HashNested.lean` redone with the position carried along; that is not cheap and is left
-    to the report.)  `someCollision_toy` shows concretely that `SomeCollision` can hold for a hasher whatever
-    values are compared.
-2.  Non-vacuity of `stream_discriminates`' hypotheses on a type with hash-ordered collections NESTED in each
-    other (the examples of `Props/C13.lean` are flat).
+    STATEMENTS these disjunctions carry no information about `v` and `w` (`someCollision_always`,
+    `stream_discriminates_first_conjunct_is_free` below; `someCollision_toy` shows it concretely).
+    REPAIRED in `Props/C13.lean`: `stream_decodes_located`, `stream_discriminates_located`,
+    `fingerprint_discriminates_located`, `fingerprint_discriminates_located_ordered` — the induction of
+    `Lemmas/HashNested.lean` redone with the position carried along (`Lemmas/HashLocated.lean`,
+    `Lemmas/HashLocatedDec.lean`): the colliding byte strings ARE the two streams of `v` and `w`, the sum collision
+    is between two hash-ordered collections at one path inside `v` and `w` (`Val.Located`).  (The two located
+    theorems first written here, for the SipHash disjunct only, moved there:
+    `fingerprint_discriminates_located_ordered`; `…_all_located` is subsumed by `fingerprint_discriminates_located`.)
+    `located_is_not_free` below: unlike `SomeCollision`, `Val.Located` is false for every hasher on every pair of
+    values of a type without hash-ordered collections, and on concrete pairs with them (`Props/C13.lean`).
+2.  Non-vacuity of `stream_discriminates`' / `stream_decodes_located`'s hypotheses on a type with hash-ordered
+    collections NESTED in each other (the examples of `Props/C13.lean` were flat).
 -/
 import QbiceVerif.Props.C13
+import QbiceVerif.Lemmas.HashLocatedFacts
 import QbiceVerif.Lemmas.CycleBasic
 namespace QbiceVerif.Hash.NonVacuity
 open QbiceVerif.Hash
-
-/-- ordered fragment, located: equal fingerprints ⇒ equal values, or THE TWO STREAMS of `v` and `w` are
-    different byte strings with one SipHash-128 value (from the same seeded state) -/
-theorem fingerprint_discriminates_located (seed : Nat) (t : Ty) (v w : Val)
-    (ho : t.ordered = true) (hwf : t.wf = true) (hv : hasType t v = true) (hw : hasType t w = true)
-    (h : hash128 seed t v = hash128 seed t w) :
-    v.canon = w.canon ∨
-    (topStream seed t v ≠ topStream seed t w ∧
-      ((seeded seed).absorb (topStream seed t v)).finish = ((seeded seed).absorb (topStream seed t w)).finish) := by
-  by_cases hs : topStream seed t v = topStream seed t w
-  · left
-    exact (stream_inj SipStream.absorb SipStream.finish t v w _ _ ho hwf hv hw).mp hs
-  · right
-    exact ⟨hs, h⟩
-
-/-- every type, located in its SipHash disjunct (the sum-collision disjunct stays the closed `SomeCollision`) -/
-theorem fingerprint_discriminates_all_located (seed : Nat) (t : Ty) (v w : Val)
-    (hwf : t.wf = true) (hv : hasType t v = true) (hw : hasType t w = true)
-    (h : hash128 seed t v = hash128 seed t w) :
-    Val.SameUpTo v t w ∨ SomeCollision SipStream.absorb SipStream.finish ∨
-    (topStream seed t v ≠ topStream seed t w ∧
-      ((seeded seed).absorb (topStream seed t v)).finish = ((seeded seed).absorb (topStream seed t w)).finish) := by
-  by_cases hs : topStream seed t v = topStream seed t w
-  · have := (stream_discriminates SipStream.absorb SipStream.finish t v w (seeded seed) [] [] hwf hv hw
-      (by rw [List.append_nil, List.append_nil]; exact hs)).1
-    rcases this with h1 | h2
-    · exact Or.inl h1
-    · exact Or.inr (Or.inl h2)
-  · exact Or.inr (Or.inr ⟨hs, h⟩)
 
 /-- the toy hasher of `Props/C13.lean`'s examples (state = bytes absorbed, finish = their number) -/
 def ab : Bytes → Bytes → Bytes := (· ++ ·)
@@ -110,6 +86,14 @@ theorem someCollision_always {σ : Type} (absorb : σ → Bytes → σ) (finish 
 theorem stream_discriminates_first_conjunct_is_free {σ : Type} (absorb : σ → Bytes → σ) (finish : σ → Nat)
     (st : σ) (t : Ty) (v w : Val) : Val.SameUpTo v t w ∨ SomeCollision absorb finish :=
   Or.inr (someCollision_always absorb finish st)
+
+/-- … whereas the LOCATED event of the repaired statements is not free: for EVERY hasher, state and pair of values
+    of a type without hash-ordered collections it is false (so there `stream_discriminates_located` is plain
+    injectivity of the stream), and it is false on concrete pairs of nested hash-ordered collections under an
+    injective toy hasher and under SipHash-128 (`Props/C13.lean`, `nA_nB_not_located…`). -/
+theorem located_is_not_free {σ : Type} (absorb : σ → Bytes → σ) (finish : σ → Nat) (st : σ) (t : Ty) (v w : Val)
+    (ho : t.ordered = true) : ¬ Val.Located absorb finish v t w st :=
+  not_located_of_ordered absorb finish v t w st ho
 
 /-- hash-ordered collections nested in each other: `Vec<HashSet<Option<HashMap<u8, HashSet<String>>>>>` -/
 def tNest : Ty := .seq (.uset (.option (.umap (.int false .w8) (.uset .str))))
